@@ -8,15 +8,151 @@
 """
 from __future__ import annotations
 
+import random
+
+from lib import alignlib, batch, gen, tlc
 from lib.core import Ctx
 from props import file_common
 
 
+def build_row(segs, rev):
+    """a real AlignmentResultRow from recorded segments (lattice rows printed by TLC)"""
+    from src.alignment.alignment_position import AlignedPair, ScoredAlignedPair, ScoredNotAlignedPosition, \
+        NotAlignedReferencePosition, NotAlignedQueryPosition
+    from src.alignment.alignment_results import AlignmentResultRow
+    from src.alignment.segment_with_resolved_conflicts import AlignmentSegmentsWithResolvedConflicts
+    from src.alignment.segments import AlignmentSegment
+    from src.correlation.optical_map import PositionWithSiteId
+    from src.correlation.peak import Peak
+    out = []
+    for sg in segs:
+        pos = []
+        for p in sg["pos"]:
+            if p["k"] == "P":
+                pos.append(ScoredAlignedPair(AlignedPair(PositionWithSiteId(p["r"][0], p["r"][1]),
+                                                         PositionWithSiteId(p["q"][0], p["q"][1]), p["sh"]), float(p["sc"])))
+            elif p["k"] == "R":
+                pos.append(ScoredNotAlignedPosition(NotAlignedReferencePosition(PositionWithSiteId(p["r"][0], p["r"][1])),
+                                                    float(p["sc"])))
+            else:
+                pos.append(ScoredNotAlignedPosition(NotAlignedQueryPosition(PositionWithSiteId(p["q"][0], p["q"][1]),
+                                                                            sg["peak"]), float(p["sc"])))
+        out.append(AlignmentSegment.create(pos, Peak(sg["peak"], 1.), pos))
+    return AlignmentResultRow.create(AlignmentSegmentsWithResolvedConflicts(out), 7, 1, 1000, 100000, rev)
+
+
+def observe_join(rowA, rowB, max_diff=10 ** 9):
+    obs = {"status": "ok", "joined": False, "pairs": []}
+    try:
+        if rowA.check_overlap(rowB, max_diff):
+            j = rowA.resolve(rowB)
+            if j:
+                obs["joined"] = True
+                obs["pairs"] = [[p.reference.siteId, p.query.siteId] for p in j.alignedPairs]
+    except Exception as e:
+        obs["status"] = "exc:" + type(e).__name__
+    return obs
+
+
+def row_record(row):
+    return {"segs": [{"peak": int(s.peak.position), "pos": [gen.pos_record(x, 1) for x in s.positions]}
+                     for s in row.segments if s.positions]}
+
+
+def realistic_join_cases(rng: random.Random, n: int):
+    """two windows of one reference (in order / overlapping / duplicated / swapped) aligned by the real Aligner:
+    the whole molecule seeded on the first window's diagonal, the second-pass style fragment on the second's"""
+    from src.correlation.peak import Peak
+    from src.correlation.optical_map import OpticalMap
+    out = []
+    tries = 0
+    while len(out) < n and tries < 8 * n:
+        tries += 1
+        ref = gen.make_reference(rng, rng.randint(40, 80), min_gap=1500, mean_gap=rng.choice([6000, 9000]))
+        nl = len(ref)
+        wa, wb = rng.randint(8, 16), rng.randint(8, 16)
+        a0 = rng.randint(2, nl - wa - wb - 8)
+        style = rng.choice(["split", "split", "overlap", "overlap", "dup", "swapped"])
+        b0 = {"split": a0 + wa + rng.randint(0, 3), "overlap": a0 + wa - rng.randint(1, 4), "dup": a0,
+              "swapped": a0 + wa + rng.randint(0, 3)}[style]
+        A, _ = gen.cut_query(rng, ref, a0, a0 + wa, sigma=rng.choice([0, 60, 150]), drop=rng.choice([0, 0.1]),
+                             extra=rng.choice([0, 0.1]))
+        B, _ = gen.cut_query(rng, ref, b0, b0 + wb, sigma=rng.choice([0, 60, 150]), drop=rng.choice([0, 0.1]),
+                             extra=rng.choice([0, 0.1]))
+        if style == "swapped":
+            A, B, a0, b0 = B, A, b0, a0
+        gap = rng.randint(1500, 9000)
+        qx = A + [A[-1] + gap + v for v in B]
+        nA = len(A)
+        rev = rng.random() < 0.5
+        qlen = qx[-1] + 1
+        if rev:
+            stored = sorted((qlen - 1) - v for v in qx)
+        else:
+            stored = qx
+        whole = OpticalMap(7, qlen, list(stored))
+        p = gen.Params(d=rng.choice([1500, 1500, 800]))
+        aligner, _, _ = gen.real_aligner(p)
+        r, _ = gen.optical_maps(ref, stored, qlen=qlen)
+        peak_a = ref[a0] - qx[0] + rng.randint(-80, 80)
+        peak_b = ref[b0] - qx[nA] + rng.randint(-80, 80)
+        row1 = aligner.align(r, whole, [Peak(peak_a, 1.)], rev)
+        # the second-pass fragment: the part of the molecule that carries B (with 2 labels of overlap), numbered as
+        # getUnalignedFragments numbers it
+        if rev:
+            n = len(stored)
+            frag = OpticalMap(7, qlen, list(stored[: n - nA + 2]), shift=0)
+        else:
+            frag = OpticalMap(7, qlen, list(stored[nA - 2:]), shift=nA - 2)
+        row2 = aligner.align(r, frag, [Peak(peak_b, 1.)], rev)
+        if not row1.alignedPairs or not row2.alignedPairs:
+            continue
+        out.append({"A": row_record(row1), "B": row_record(row2), "rev": rev, "obs": observe_join(row1, row2),
+                    "style": style})
+    return out
+
+
+def join_signature(rec, failed):
+    """known-finding signature: every pair of the (valid) union that the joined record lacks lies inside the zone the
+    join slices: from the first pair of the part that starts later to the last pair of the part that starts earlier"""
+    if failed != ["joined_is_exactly_the_union_when_union_is_valid"]:
+        return ""
+    pa = [(p["r"][0], p["q"][0], p["r"][1]) for s_ in rec["A"]["segs"] for p in s_["pos"] if p["k"] == "P"]
+    pb = [(p["r"][0], p["q"][0], p["r"][1]) for s_ in rec["B"]["segs"] for p in s_["pos"] if p["k"] == "P"]
+    joined = {tuple(x) for x in rec["obs"]["pairs"]}
+    missing = [x for x in pa + pb if (x[0], x[1]) not in joined]
+    first, second = (pa, pb) if pa[0][2] < pb[0][2] else (pb, pa)
+    lo, hi = second[0][2], first[-1][2]
+    if missing and all(lo <= x[2] <= hi for x in missing):
+        return "merge_cut_drops_pairs_inside_conflict_zone"
+    return ""
+
+
 def classify(ln, failed):
-    """structural signature of a failing join for known_findings.json: which pairs of the valid union are missing"""
+    """file-level signature of known finding D7: every joined record that is not the (valid) union of its parts lacks
+    only pairs whose reference labels lie between the first pair of the part that starts later and the last pair of
+    the part that starts earlier (label numbers ascend with the coordinate)"""
     if failed != ["C08:joined_is_exactly_the_union_when_union_is_valid"]:
         return ""
-    return ""
+    a = ln["runs"]["all"]
+    ok = False
+    for j in a["main"]:
+        F = [r for r in a["f1"] if r["q"] == j["q"] and r["r"] == j["r"] and r["ori"] == j["ori"]]
+        S = [r for r in a["f2"] if r["q"] == j["q"] and r["r"] == j["r"] and r["ori"] == j["ori"]]
+        if not F or not S:
+            continue
+        pf, ps_ = [tuple(p) for p in F[0]["pairs"]], [tuple(p) for p in S[0]["pairs"]]
+        union = set(pf) | set(ps_)
+        joined = {tuple(p) for p in j["pairs"]}
+        if joined == union:
+            continue
+        missing = union - joined
+        first, second = (pf, ps_) if pf[0][0] < ps_[0][0] else (ps_, pf)
+        lo, hi = second[0][0], first[-1][0]
+        if not missing or not all(lo <= m[0] <= hi for m in missing) or (joined - union):
+            return ""
+        ok = True
+    return "merge_cut_drops_pairs_inside_conflict_zone" if ok else ""
 
 
 def run(ctx: Ctx):
@@ -48,6 +184,37 @@ def run(ctx: Ctx):
                           classify(ln, mine), what=f"input={rr['summary']['idx']} extra={rr['summary']['extra']}")
         elif drift and not failed:
             ctx.add_drift(1, {"input": rr["summary"]["idx"], "drift": drift})
+    # ---- the join itself at component level: real AlignmentResultRow.resolve on (i) the lattice rows MC_Join
+    #      enumerates (printed by TLC) and (ii) rows built by the real Aligner; judged by TLC (Trace_Join)
+    mcj = tlc.run_tlc("MC_Join", "MC_Join.cfg", ctx.workdir, workers=4)
+    ctx.add_model("MC_Join", mcj)
+    un = tlc.run_tlc("MC_Join", "MC_Join_union.cfg", ctx.workdir, workers=2, allow_violation=True)
+    ctx.notes["MC_Join_union"] = ("TLC finds a join whose parts have a valid union that the joined record does not equal "
+                                  "(known finding D7): " + ("yes" if un.invariant_violated else "NO LONGER"))
+    space = batch.export_by_print("MC_Join", "Export_Join.cfg", ctx.workdir, workers=4)
+    rng = random.Random(ctx.seed * 977 + 8)
+    jrecs = []
+    for c in (space if not quick else space[::2]):
+        ra, rb = build_row(c["A"]["segs"], False), build_row(c["B"]["segs"], False)
+        jrecs.append({"A": c["A"], "B": c["B"], "rev": False, "obs": observe_join(ra, rb), "style": "lattice"})
+    jrecs += realistic_join_cases(rng, 1500 if quick else 40000)
+    v3, r3 = batch.validate("Trace_Join", "Trace_Join.cfg", ctx.workdir,
+                            [{k: v for k, v in x.items() if k != "style"} for x in jrecs], name="join.ndjson")
+    ctx.add_traces(len(jrecs))
+    ctx.notes["join_component"] = {"cases": len(jrecs), "joined": sum(1 for x in jrecs if x["obs"]["joined"]),
+                                   "from_tlc_exported_space": len(space)}
+    for x in jrecs:
+        if x["obs"]["joined"]:
+            ctx.nontrivial(("join", repr(x["A"]) + repr(x["B"])))
+    for tid, (failed, drift) in sorted(v3.items()):
+        x = jrecs[tid]
+        if failed:
+            ctx.violation(x, ["C08:" + c for c in failed], join_signature(x, failed),
+                          what=f"style={x['style']} rev={x['rev']} joined={x['obs']['pairs'][:8]} "
+                               f"A={[ (p['r'][0], p['q'][0]) for s_ in x['A']['segs'] for p in s_['pos'] if p['k'] == 'P'][:8]} "
+                               f"B={[ (p['r'][0], p['q'][0]) for s_ in x['B']['segs'] for p in s_['pos'] if p['k'] == 'P'][:8]}")
+        elif drift:
+            ctx.add_drift(1, {"style": x["style"], "obs": x["obs"], "drift": drift})
     ok = [ln for ln in lines if ln is not None and ln["runs"]["all"]["main"]]
     if ok:
         j = ok[0]["runs"]["all"]["main"][0]
